@@ -805,6 +805,9 @@ class Mini:
             return self.apply(f, args)
         args = [self.ev(a, env) for a in H.call_args(n)]
         last = p.split("::")[-1]
+        for suffix, f in getattr(self, "overrides", {}).items():
+            if p.endswith(suffix) and not suffix.startswith("::") or (suffix.startswith("::") and p.endswith(suffix)):
+                return f(args)
         if p.startswith("std::result::Result::") or p.startswith("std::option::Option::"):
             if last in ("Ok", "Err", "Some"):
                 return (last, args[0])
@@ -913,6 +916,9 @@ class Mini:
         p, nm = m["path"], m["name"]
         recv = self.ev(m["recv"], env)
         args = [self.ev(a, env) for a in m["args"]]
+        for suffix, f in getattr(self, "overrides", {}).items():
+            if p.endswith(suffix) and p.startswith(("std::", "core::", "alloc::")):
+                return f([recv] + args)
         if p in ("std::io::Read::read_exact",) or p.endswith("AsyncReadExt::read_exact") or p.endswith("ReadExt::read_exact"):
             buf = args[0]
             if not isinstance(recv, Stream) or not isinstance(buf, list):
